@@ -472,7 +472,8 @@ Fixpoint find_dc (t : nat) (l : list dcent) : option dcent :=
 
 (* what a newly built volumetric view of indexer [im] holds *)
 Definition capture (tc : nat) (im : imol) : dcent :=
-  mkde tc (i_data im) (i_phases im) (if i_multi im then None else Some (i_ph im)).
+  if i_multi im then mkde tc (i_data im) (i_phases im) None          (* rows zipped with _phases *)
+  else mkde tc (i_data im) [] (Some (i_ph im)).                     (* data.dct and the phase container *)
 
 (* self._imol.by_volume(self._thermal_condition): the cached view for this ThermalCondition object, or a new one *)
 Definition by_volume (s : state) (i : nat) : state * dcent :=
